@@ -103,7 +103,7 @@ def variants(rel, sub, v, short_file, n):
 
 def enum_cases(tier):
     def g():
-        V = 3 if tier == 'quick' else 6
+        V = 3 if tier == 'quick' else 9
         for rel in GL.shipped():
             m = meta(rel)
             names = m['tables']
@@ -149,7 +149,7 @@ def random_case(draw):
 def searches(tier):
     q = tier == 'quick'
     return [Search('ordered_table_subsets', 'enum', enum_cases(tier), shards=16),
-            Search('random_selections', 'hyp', random_case, n=640 if q else 32000, shards=16, max_shrink_s=20)]
+            Search('random_selections', 'hyp', random_case, n=640 if q else 160000, shards=16, max_shrink_s=20)]
 
 
 # ------------------------------------------------------------------------------------------------
